@@ -19,7 +19,7 @@ func (C04) Describe() sim.Description {
 		Rule: "one case = a MemFS tree built by a seeded history of Mkdir, WriteFile and Symlink calls with targets of every shape (sibling name, ../name, ../../name, absolute path, the link " +
 			"itself, members of 2- and 3-cycles, chains of 1-45 links - both sides of the kernel's limit of 40 -, dangling, targets below a regular file), links re-targeted mid-history by " +
 			"Remove+Symlink and Rename, followed by 10-40 calls Stat, Lstat, Open, ReadFile, ReadDir, Chmod, Truncate, Mkdir and WriteFile below, EvalSymlinks, Readlink, Remove, Rename, Lchown, Link on " +
-			"paths of 1-4 components through those names (link in final and in intermediate position), each executed in lockstep on the real kernel (chrooted helper; filepath.EvalSymlinks for " +
+			"paths of 1-4 components through those names (link in final and in intermediate position; relative forms and '..' after Chdir or File.Chdir through a link, Getwd), each executed in lockstep on the real kernel (chrooted helper; filepath.EvalSymlinks for " +
 			"EvalSymlinks): same errno class, same data, same tree after every call. non-trivial = at least 2 symbolic links exist and at least 3 calls went through a link; distinct by hash of the calls",
 		Explanation: "deterministic lockstep simulation against the kernel with a link-heavy profile; the statement has no schedule or fault dimension (links are re-targeted mid-history by ordinary calls)",
 		Assumptions: []string{
@@ -55,7 +55,7 @@ func (p C04) Run(c *sim.Ctx, t *sim.Tape) sim.RunResult {
 
 	do := func(i int, o fsx.Op) (stop bool) {
 		if filtered && len(opPathsOf(o)) > 0 && w.avoided(c, "C04", o) {
-			o = fsx.Op{K: "Lstat", P: o.P}
+			o = insteadOf(o)
 		}
 
 		out := w.step(c, "C04", i, o, w.env, 0, 0, 0o022)
@@ -190,14 +190,28 @@ func (p C04) Run(c *sim.Ctx, t *sim.Tape) sim.RunResult {
 			p = "/" + name()
 		}
 
+		// after a Chdir: relative forms, also climbing out of the current directory.
+		if w.cwd != "/" && t.Chance(250) {
+			switch t.Int(3) {
+			case 0:
+				p = name()
+			case 1:
+				p = "../" + name()
+			default:
+				if strings.HasPrefix(p, w.cwd+"/") {
+					p = strings.TrimPrefix(p, w.cwd+"/")
+				}
+			}
+		}
+
 		return p
 	}
 
 	kinds := []string{
 		"Stat", "Lstat", "Open", "ReadFile", "ReadDir", "Chmod", "Truncate", "Mkdir", "WriteFile", "EvalSymlinks", "Readlink", "Remove", "Rename", "Lchown", "Link",
-		"Symlink", "FClose", "MkdirAll", "OpenFile",
+		"Symlink", "FClose", "MkdirAll", "OpenFile", "Chdir", "FChdir", "Getwd", "FStat", "FReadDir",
 	}
-	weights := []int{6, 4, 3, 4, 3, 2, 2, 3, 3, 5, 3, 2, 3, 1, 2, 2, 1, 1, 2}
+	weights := []int{6, 4, 3, 4, 3, 2, 2, 3, 3, 5, 3, 2, 3, 1, 2, 2, 1, 1, 2, 2, 2, 2, 1, 1}
 
 	for q, lim := 0, 40*deeper(c, t); q < lim && (q < 10 || t.Chance(930+30*(lim/80))); q++ {
 		o := fsx.Op{K: kinds[t.Weighted(weights)]}
@@ -211,8 +225,11 @@ func (p C04) Run(c *sim.Ctx, t *sim.Tape) sim.RunResult {
 			o.P, o.H = path(), 0
 		case "OpenFile":
 			o.P, o.Flag, o.Perm, o.H = path(), genFlags(t), 0o644, 0
-		case "FClose":
+		case "FClose", "FChdir", "FStat":
 			o.H = 0
+		case "FReadDir":
+			o.H, o.N = 0, -1
+		case "Getwd":
 		case "Chmod", "Mkdir", "MkdirAll":
 			o.P, o.Perm = path(), 0o750
 		case "Truncate":
